@@ -55,17 +55,22 @@ fn merge_thread_hits() {
 struct St {
     // record
     hits: Vec<&'static str>,
-    // force
-    pause_role: u8,
-    pause_at: usize,
-    count: usize,
-    paused: bool,
-    paused_point: Option<&'static str>,
-    release: bool,
+    // force: up to two held threads
+    slots: [Slot; 2],
     spin: usize,
     peer_releases: u64,
     // order of (role, point) hits in forced mode, hashed
     trace: u64,
+}
+
+#[derive(Default, Clone, Copy)]
+struct Slot {
+    role: u8,
+    at: usize,
+    count: usize,
+    paused: bool,
+    point: Option<&'static str>,
+    release: bool,
 }
 
 struct Ctl {
@@ -93,24 +98,31 @@ fn on_point(name: &'static str) {
         M_FORCE => {
             let mut st = CTL.st.lock().unwrap();
             st.trace = hash_mix(st.trace, vcommon::fnv64(name.as_bytes()) ^ role as u64);
-            if role == st.pause_role {
-                st.count += 1;
-                if st.count == st.pause_at && !st.release {
-                    st.paused = true;
-                    st.paused_point = Some(name);
+            if let Some(i) = st.slots.iter().position(|s| s.role == role) {
+                st.slots[i].count += 1;
+                if st.slots[i].count == st.slots[i].at && !st.slots[i].release {
+                    st.slots[i].paused = true;
+                    st.slots[i].point = Some(name);
                     CTL.cv.notify_all();
-                    while !st.release {
+                    while !st.slots[i].release {
                         st = CTL.cv.wait(st).unwrap();
                     }
-                    st.paused = false;
+                    st.slots[i].paused = false;
+                    return;
                 }
-            } else if st.paused {
-                // the peer is running while the other thread is held: if it only spins on the
-                // task the held thread owns (the executor's documented busy-wait), let go
+            }
+            let other_paused = st.slots.iter().any(|s| s.role != role && s.paused);
+            if other_paused {
+                // this thread runs while another is held: if it only spins on the task the held
+                // thread owns (the executor's documented busy-wait), let the held thread go
                 if name == "qe.unavailable" {
                     st.spin += 1;
                     if st.spin > SPIN_LIMIT {
-                        st.release = true;
+                        for s in st.slots.iter_mut() {
+                            if s.role != role && s.paused {
+                                s.release = true;
+                            }
+                        }
                         st.peer_releases += 1;
                         CTL.cv.notify_all();
                     }
@@ -484,6 +496,9 @@ enum Schedule {
     Record { who: usize },
     /// hold op `first` at its k-th hook hit, run op `second` meanwhile
     Force { first: usize, second: usize, k: usize },
+    /// hold `first` at its k-th hit, run `second` up to its j-th hit and hold it there, let
+    /// `first` finish, then let `second` finish (two preemptions)
+    Force2 { first: usize, second: usize, k: usize, j: usize },
     /// all ops at once with random yields at hook points
     Random { seed: u64 },
     /// all ops at once, controller untouched (sanitizer lanes)
@@ -494,6 +509,7 @@ struct RunResult {
     findings: Vec<(String, String, Value)>,
     hits: Vec<&'static str>,
     paused_point: Option<&'static str>,
+    second_point: Option<&'static str>,
     trace: u64,
     peer_release: bool,
     effects_seen: usize,
@@ -504,6 +520,7 @@ struct RunResult {
 struct ThreadMeta {
     hits: Vec<&'static str>,
     paused_point: Option<&'static str>,
+    second_point: Option<&'static str>,
     trace: u64,
     peer_release: bool,
 }
@@ -547,13 +564,28 @@ fn run_threads<T: Send, R: Send>(
                 }
             }
         }
-        Schedule::Force { first, second, k } => {
+        Schedule::Force { .. } | Schedule::Force2 { .. } => {
+            let (first, second, k, j) = match schedule {
+                Schedule::Force { first, second, k } => (first, second, k, 0usize),
+                Schedule::Force2 { first, second, k, j } => (first, second, k, j),
+                _ => unreachable!(),
+            };
             {
                 let mut st = CTL.st.lock().unwrap();
-                st.pause_role = first as u8 + 1;
-                st.pause_at = k;
+                st.slots[0] = Slot { role: first as u8 + 1, at: k, ..Slot::default() };
+                st.slots[1] = Slot { role: second as u8 + 1, at: j, ..Slot::default() };
             }
             MODE.store(M_FORCE, Ordering::SeqCst);
+            let release = |i: usize, count_as_peer: bool| {
+                let mut st = CTL.st.lock().unwrap();
+                if !st.slots[i].release {
+                    st.slots[i].release = true;
+                    if count_as_peer {
+                        st.peer_releases += 1;
+                    }
+                    CTL.cv.notify_all();
+                }
+            };
             std::thread::scope(|s| {
                 let op_a = thread_ops[first].take().unwrap();
                 let op_b = thread_ops[second].take().unwrap();
@@ -561,41 +593,50 @@ fn run_threads<T: Send, R: Send>(
                 // wait until the first thread is held (or has finished without reaching hit k)
                 {
                     let mut st = CTL.st.lock().unwrap();
-                    while !st.paused && !ha.is_finished() {
+                    while !st.slots[0].paused && !ha.is_finished() {
                         let (g, _) = CTL.cv.wait_timeout(st, Duration::from_micros(200)).unwrap();
                         st = g;
                     }
                 }
                 let hb = s.spawn(|| run_one(second, op_b, None));
-                // The second thread normally finishes in well under a millisecond. If it does
-                // not, it is waiting for something the held thread owns (a task slot, or a
-                // lock when the hook sits inside a waker called under a lock): let the first
-                // thread go, as the OS scheduler eventually would. This only decides when the
-                // hold ends, never a verdict.
+                // The second thread normally finishes (or reaches its own hold point) in well under
+                // a millisecond. If it does neither, it is waiting for something the held thread
+                // owns (a task slot, or a lock when the hook sits inside a waker called under a
+                // lock): let the first thread go, as the OS scheduler eventually would. This only
+                // decides when a hold ends, never a verdict.
                 let t0 = std::time::Instant::now();
-                while !hb.is_finished() {
+                loop {
+                    if hb.is_finished() {
+                        break;
+                    }
+                    if CTL.st.lock().unwrap().slots[1].paused {
+                        break;
+                    }
                     if t0.elapsed() > Duration::from_millis(25) {
-                        let mut st = CTL.st.lock().unwrap();
-                        if !st.release {
-                            st.release = true;
-                            st.peer_releases += 1;
-                            CTL.cv.notify_all();
-                        }
+                        release(0, true);
                         break;
                     }
                     std::thread::sleep(Duration::from_micros(20));
                 }
-                outs[second] = Some(hb.join().expect("thread"));
-                {
-                    let mut st = CTL.st.lock().unwrap();
-                    st.release = true;
-                    CTL.cv.notify_all();
+                // first runs to completion (second is either done, held, or waiting for first)
+                release(0, false);
+                // ... unless it in turn waits for something the held second thread owns
+                let t1 = std::time::Instant::now();
+                while !ha.is_finished() {
+                    if t1.elapsed() > Duration::from_millis(25) {
+                        release(1, true);
+                        break;
+                    }
+                    std::thread::sleep(Duration::from_micros(20));
                 }
                 outs[first] = Some(ha.join().expect("thread"));
+                release(1, false);
+                outs[second] = Some(hb.join().expect("thread"));
             });
             MODE.store(M_OFF, Ordering::SeqCst);
             let st = CTL.st.lock().unwrap();
-            meta.paused_point = st.paused_point;
+            meta.paused_point = st.slots[0].point;
+            meta.second_point = st.slots[1].point;
             meta.trace = st.trace;
             meta.peer_release = st.peer_releases > 0;
             drop(st);
@@ -662,6 +703,7 @@ where
         findings: vec![],
         hits: vec![],
         paused_point: None,
+        second_point: None,
         trace: 0,
         peer_release: false,
         effects_seen: 0,
@@ -700,6 +742,7 @@ where
     );
     result.hits = meta.hits;
     result.paused_point = meta.paused_point;
+    result.second_point = meta.second_point;
     result.trace = meta.trace;
     result.peer_release = meta.peer_release;
     let outs: Vec<Option<OpOut<A::Effect>>> = outs
@@ -969,6 +1012,7 @@ where
         findings: vec![],
         hits: vec![],
         paused_point: None,
+        second_point: None,
         trace: 0,
         peer_release: false,
         effects_seen: 0,
@@ -1015,6 +1059,7 @@ where
     };
     result.hits = meta.hits;
     result.paused_point = meta.paused_point;
+    result.second_point = meta.second_point;
     result.trace = meta.trace;
     result.peer_release = meta.peer_release;
     // answered one-shot ids are no longer outstanding
@@ -1298,6 +1343,7 @@ fn main() {
         };
         match kind.as_str() {
             "forced" => {
+                let mut hit_counts = [0usize; 2];
                 for (first, second) in [(0usize, 1usize), (1, 0)] {
                     wd.begin(|| json!({"lane": "schedlab-forced", "scenario": scn, "phase": "record", "first": first}).to_string());
                     let rec = run_any(&scn, &model, &exp, Schedule::Record { who: first }, &mut rng);
@@ -1309,6 +1355,7 @@ fn main() {
                     r.max("max_hook_hits_in_one_call", rec.hits.len() as u64);
                     drop(r);
                     let n = rec.hits.len();
+                    hit_counts[first] = n;
                     for k in 1..=n {
                         wd.begin(|| json!({"lane": "schedlab-forced", "scenario": scn, "first": first, "second": second, "k": k}).to_string());
                         let res = run_any(&scn, &model, &exp, Schedule::Force { first, second, k }, &mut rng);
@@ -1328,6 +1375,44 @@ fn main() {
                         }
                         traces.insert(res.trace);
                         record(&mut r, &res, "force", json!({"first": first, "second": second, "k": k, "held_at": res.paused_point}));
+                    }
+                }
+                // two preemptions: hold the first at k, the second at j, finish the first, then
+                // the second. All (k, j) in thorough, a sample in quick.
+                for (first, second) in [(0usize, 1usize), (1, 0)] {
+                    let n1 = hit_counts[first];
+                    let n2 = hit_counts[second];
+                    if n1 == 0 || n2 == 0 {
+                        continue;
+                    }
+                    let mut pairs: Vec<(usize, usize)> = vec![];
+                    if thorough && n1 * n2 <= 1200 {
+                        for k in 1..=n1 {
+                            for j in 1..=n2 {
+                                pairs.push((k, j));
+                            }
+                        }
+                    } else {
+                        let want = if thorough { 200 } else { 24 };
+                        for _ in 0..want {
+                            pairs.push((rng.range(1, n1 as u64) as usize, rng.range(1, n2 as u64 + 4) as usize));
+                        }
+                    }
+                    for (k, j) in pairs {
+                        wd.begin(|| json!({"lane": "schedlab-forced", "scenario": scn, "first": first, "second": second, "k": k, "j": j}).to_string());
+                        let res = run_any(&scn, &model, &exp, Schedule::Force2 { first, second, k, j }, &mut rng);
+                        wd.end();
+                        let mut r = report.lock().unwrap();
+                        r.eval();
+                        r.count("double_preemption_schedules", 1);
+                        if let (Some(p), Some(q)) = (res.paused_point, res.second_point) {
+                            r.count("double_preemptions_where_both_threads_were_held", 1);
+                            r.set("second_hold_points_exercised", q);
+                            let _ = p;
+                            r.nontrivial(hash_mix(hash_mix(scn_hash, (first * 7 + second + 100) as u64), (k * 1000 + j) as u64));
+                        }
+                        traces.insert(res.trace);
+                        record(&mut r, &res, "force2", json!({"first": first, "second": second, "k": k, "j": j, "held_at": [res.paused_point, res.second_point]}));
                     }
                 }
                 let mut r = report.lock().unwrap();
